@@ -198,6 +198,23 @@ def t_truth(wb, rng):
     return f"truth:{old}->{s['rows'][ri][ci]}"
 
 
+SETTINGS_FLAGS = ("allow_choice_duplicates", "omit_instanceid", "omit_instanceID")
+
+
+def t_settings_truth(wb, rng):
+    """yes/no family on the documented settings flags: every spelling of the same truth value is the same setting."""
+    s = wb.sheets.get("settings")
+    if not s or not s["rows"]:
+        return None
+    cells = [(0, ci) for ci, h in enumerate(s["hdrs"]) if str(h).strip() in SETTINGS_FLAGS and (s["rows"][0][ci] in TRUTHY or s["rows"][0][ci] in FALSY)]
+    if not cells:
+        return None
+    ri, ci = rng.choice(cells)
+    old = s["rows"][ri][ci]
+    s["rows"][ri][ci] = rng.choice([x for x in (TRUTHY if old in TRUTHY else FALSY) if x != old])
+    return f"settings-truth:{s['hdrs'][ci]}:{old}->{s['rows'][ri][ci]}"
+
+
 def t_smart_quotes(wb, rng):
     key = rng.choice([k for k in wb.sheets if k in ("survey", "choices")])
     s = wb.sheets[key]
@@ -292,8 +309,21 @@ def t_extra_sheet(wb, rng):
     name = rng.choice(["_settings", "_notes", "_survey", "changelog", "readme_for_team", "lookup tables", "_choices", "zzz9", "_entities"])
     if name in wb.sheets:
         return None
-    wb.sheets[name] = {"name": name, "hdrs": ["type", "name", "anything"], "canon": [None, None, None],
-                       "rows": [["begin group", "x", "y"], ["note", "${broken", "z"]]}
+    # whatever an unrelated sheet holds is none of the converter's business: broken rows, repeated captions, numbers as captions, nothing at all
+    shape = rng.randrange(6)
+    if shape == 0:
+        hdrs, rows = ["type", "name", "anything"], [["begin group", "x", "y"], ["note", "${broken", "z"]]
+    elif shape == 1:
+        hdrs, rows = ["year", "year", "label", "label"], [["2023", "2024", "a", "b"]]
+    elif shape == 2:
+        hdrs, rows = [2023, 2024, 1.5], [[1, 2, 3], ["x", None, "y"]]
+    elif shape == 3:
+        hdrs, rows = [], []
+    elif shape == 4:
+        hdrs, rows = ["only header"], []
+    else:
+        hdrs, rows = [None, "b", None, "b"], [["stray", "1", None, "2"], [None, None, None, None], ["${", "}", "<x>", "&"]]
+    wb.sheets[name] = {"name": name, "hdrs": hdrs, "canon": [None] * len(hdrs), "rows": rows}
     wb.order.insert(rng.randint(0, len(wb.order)), name)
     return f"extra-sheet:{name}"
 
@@ -313,7 +343,7 @@ def t_unknown_col(wb, rng):
     return f"unknown-column:{key}:{name}"
 
 
-ALL = [t_header_case, t_header_alias, t_delimiter, t_type_alias, t_truth, t_smart_quotes, t_whitespace, t_col_perm, t_sheet_perm,
+ALL = [t_header_case, t_header_alias, t_delimiter, t_type_alias, t_truth, t_settings_truth, t_smart_quotes, t_whitespace, t_col_perm, t_sheet_perm,
        t_sheet_case, t_blank_rows, t_extra_sheet, t_unknown_col]
 BY_NAME = {f.__name__[2:]: f for f in ALL}
 
